@@ -265,3 +265,19 @@ def nan_initialised(fnode, name):
             found = True
     return found
 
+
+
+def literalise(e):
+    """a copy of the expression with module-level literal constants (normal form N2) written out as literals"""
+    import copy as _cp
+
+    class _L(ast.NodeTransformer):
+        def visit_Name(self, n_):
+            v_ = getattr(n_, '_xrsa_const', None)
+            if isinstance(n_.ctx, ast.Load) and hasattr(n_, '_xrsa_const'):
+                if isinstance(v_, (int, float, str)) and not isinstance(v_, bool) and not (isinstance(v_, float) and v_ != v_):
+                    return ast.copy_location(ast.Constant(value=v_), n_)
+                if isinstance(v_, (tuple, list)) and all(isinstance(x, (int, float, str)) and not isinstance(x, bool) for x in v_):
+                    return ast.copy_location(ast.Tuple(elts=[ast.Constant(value=x) for x in v_], ctx=ast.Load()), n_)
+            return n_
+    return ast.fix_missing_locations(_L().visit(_cp.deepcopy(e)))
